@@ -1,0 +1,19 @@
+//go:build verif
+
+// Contracts for govc (contract-based deductive verification, see /verif/DESIGN.md).
+// Comment-only file: it adds no code and is compiled only with -tags verif.
+
+package traceql_transpiler
+
+// One portion of a complex request: the trace ids handed to the next portion are those
+// of the traces this portion found, one per trace, all of them.
+//@ func (*ComplexRequestProcessor).ProcessComplexReqIteration [C11,C14]
+//@   flag checks=-index,-assert
+//@   ensures one-cached-id-per-found-trace: result3 == nil ==> len(result2) == len(result0)
+//@   loop 1:
+//@     invariant len(cachedTraceIDs) == len(res)
+//@   loop 2:
+//@     invariant len(cachedTraceIDs) == len(res)
+// The lower bound handed to the next portion is the start of the earliest trace found:
+// once set, it only moves down while the traces of the portion are walked.
+//@     step the-next-lower-bound-only-moves-down: from.UnixNano() <= prev(from.UnixNano()) || prev(from.Nanosecond()) == 0
